@@ -111,6 +111,15 @@ def families():
                 yield "rep", [">=", [S(("+", num(6))), S((s1, ab(c1, e)), (s2, ab(c2, e)))]]
         yield "rep", ["<=", [S(("+", ab(None, e)), ("+", ab(None, e)), ("+", ab(None, e))), S(("+", num(3)))]]
         yield "rep", ["<=", [S(("+", ab(None, e)), ("+", var(None, "z")), ("+", ab(2, e))), S(("+", num(3)))]]
+    # bigabs: absolute values whose inner coefficients agree to 4 significant digits are different terms
+    for c1, c2 in ((10001, 10004), (1.2341, 1.2344), (12341, 12344), (0.50001, 0.50004)):
+        for rest in (None, ("-", var(None, "y"))):
+            e1 = S(("+", var(c1, "x"))) + ([list(rest)] if rest else [])
+            e2 = S(("+", var(c2, "x"))) + ([list(rest)] if rest else [])
+            yield "rep", ["<=", [S(("+", ab(None, e1)), ("+", ab(None, e2))), S(("+", num(2)))]]
+            yield "rep", ["<=", [S(("+", ab(2, e1)), ("+", ab(None, e2)), ("+", var(None, "z"))), S(("+", num(3)))]]
+            yield "rep", [">=", [S(("+", num(6))), S(("+", ab(None, e2)), ("+", ab(3, e1)))]]
+            yield "rep", ["<=", [S(("+", ab(None, e1))), S(("-", ab(None, e2)), ("+", num(2)))]]
     # par: parenthesised linear and absolute sides
     for e in inner[:5]:
         for c in (None, 2, 0.5):
@@ -226,7 +235,10 @@ def render(tree, sp, mu, ns, lead):
     gap = ["", " ", "  "][sp]
 
     def n(k):
-        return NUMSP[k][ns]
+        if k in NUMSP:
+            return NUMSP[k][ns]
+        r = repr(k)
+        return [r, r, r + ("0" if "." in r else ".0"), r, "(%s/1)" % r][ns]
 
     def mul(c):
         if c is None:
